@@ -154,7 +154,9 @@ def statics (env : Env) (o : Opts) (topdomain : List Nat) : Cli :=
   let c := clientInit Cli.boot env.r1 env.r2
   { c with selecttimeout := o.selecttimeout, lazymode := o.lazymode ≠ 0, topdomain := topdomain,
            hostnameMaxlen := if o.hostnameMaxlen ≤ 255 then o.hostnameMaxlen else c.hostnameMaxlen,
-           doQtype := o.doQtype, downenc := o.downenc }
+           doQtype := o.doQtype, downenc := o.downenc,
+           -- dns.c: `int dnsc_use_edns0 = 1;` (`Cli.boot` has the value `client_handshake()` stores first thing)
+           edns0 := true }
 
 /-- substituted calls after a successful handshake, up to `do_chroot` -/
 def evMid (o : Opts) : List Ev :=
